@@ -22,6 +22,8 @@ type item struct {
 type FileQueue struct {
 	Home   string
 	Offset int64
+	// PutRW serialises writers of tmp.data: Put is also called from the write-behind goroutine (asset indexes in BeansDB.After)
+	PutRW sync.Mutex
 
 	IndexRW sync.RWMutex
 	Index   map[string]*item
@@ -58,7 +60,10 @@ func (queue *FileQueue) Start() {
 	queue.start()
 	queue.SyncFileDB.Open()
 
+	// the write-behind goroutine is already running and may call Put (BeansDB.After) for the records re-delivered by the scan
+	queue.PutRW.Lock()
 	err := queue.checkFile()
+	queue.PutRW.Unlock()
 	if err != nil {
 		panic("start queue.check tmp file err: " + err.Error())
 	}
@@ -273,6 +278,9 @@ func (queue *FileQueue) Put(flag uint32, key []byte, val []byte) error {
 		return err
 	}
 
+	queue.PutRW.Lock()
+	defer queue.PutRW.Unlock()
+
 	path := queue.path()
 
 	// TODO del tmp file.
@@ -293,6 +301,9 @@ func (queue *FileQueue) PutBatch(items []*BatchItem) error {
 	if err != nil {
 		return err
 	}
+
+	queue.PutRW.Lock()
+	defer queue.PutRW.Unlock()
 
 	path := queue.path()
 	totalBuf := queue.mergeBatchItems(tmpBuf)
